@@ -280,6 +280,10 @@ pub fn flush_events(phase: &str) {
     let Some(path) = env("WILD_VERIF_EVENTS") else {
         return;
     };
+    // Flushes can happen concurrently (string merging runs alongside the layout traversal), so
+    // serialise them: interleaved appends would tear lines.
+    static FLUSH: Mutex<()> = Mutex::new(());
+    let _flush_guard = FLUSH.lock().unwrap();
     let mut events = std::mem::take(&mut *log.lock().unwrap());
     events.sort_unstable();
     if let Ok(f) = std::fs::OpenOptions::new()
